@@ -54,6 +54,9 @@ func init() {
 			add("BalanceCmd", "CommodityMatches", "AccountMatches")
 		}
 	}
+	// cmd/flags: Multiperiod.Partition (the values of the period and interval flags are ext parameters)
+	trUnits = append(trUnits, &trUnit{pkg: "cmd/flags", mod: "Flags", funcs: []string{"DateFlag.Value", "PeriodFlag.Value", "Multiperiod.Partition"},
+		agree: map[string]string{"DateFlag.Value": "BalanceCmd", "PeriodFlag.Value": "BalanceCmd", "Multiperiod.Partition": "BalanceCmd"}})
 	// cmd/commands: only the fragment `query` of balanceRunner.execute
 	trUnits = append(trUnits, &trUnit{pkg: "cmd/commands", mod: "Commands", funcs: []string{"balanceRunner.execute"},
 		agree: map[string]string{"balanceRunner.execute": "BalanceCmd"}})
@@ -71,6 +74,7 @@ func init() {
 	trStubEnsure("strings", "func TrimPrefix(", "func TrimPrefix(s, prefix string) string")
 	trPrims["strings.TrimPrefix"] = trPrim{lean: "Strings.TrimPrefix"}
 	trOpaque["*regexp.Regexp"] = "Regexp.Ptr"
+	trOpaque[trKnutPath+"cmd/flags.DateFlag"] = "Int" // `type DateFlag time.Time`: a date, as time.Time itself
 	trPrims["(*regexp.Regexp).MatchString"] = trPrim{lean: "Regexp.MatchString", effect: true}
 	trDropped[trAccountPath+".Registry"] = true
 	trNilSlices[trKnutPath+"lib/amounts.AccountMatches"] = []string{"regexes"}
